@@ -34,3 +34,14 @@ Proof.
   vm_compute in E. injection E as <-. vm_compute in H. destruct (H eq_refl) as [H1|[l H1]]; discriminate.
 Qed.
 Print Assumptions C05_success_visible_full_refuted.
+
+(* removal: the binding is gone, every other top-level binding prints as before (see C04_rm_plain_root for the full
+   statement); a name that is not bound is refused with KeyError and the state is unchanged *)
+From E Require Import EditRemove EditMapSpec EditLaws.
+Theorem C05_rm_missing : forall s k, find_by_name s (rvals s) k = None -> m_rm s [k] = (s, Err KeyErr).
+Proof. exact EditRemove.rm_missing_root. Qed.
+Print Assumptions C05_rm_missing.
+Theorem C05_rm_then_absent : forall s k, uniq_names (abs s) -> snd (set_delitem s SRoot k) = Ok tt ->
+  getitem (fst (set_delitem s SRoot k)) SRoot k = None.
+Proof. exact EditMapSpec.get_after_del. Qed.
+Print Assumptions C05_rm_then_absent.
